@@ -794,6 +794,19 @@ class rrule(rrulebase):
         byminute = self._byminute
         bysecond = self._bysecond
 
+        if freq == WEEKLY and weekday != wkst:
+            # The first period is the whole week containing dtstart, so that
+            # BYSETPOS counts from the first day of that week; instants before
+            # dtstart are dropped below.
+            try:
+                first = (self._dtstart.date() -
+                         datetime.timedelta(days=(weekday-wkst) % 7))
+            except OverflowError:
+                pass
+            else:
+                year, month, day = first.year, first.month, first.day
+                weekday = wkst
+
         ii = _iterinfo(self)
         ii.rebuild(year, month)
 
